@@ -139,6 +139,7 @@ static bool odd_tie_text(const ustr &text) {
 static std::string check_value_su(cif_value_tp *v, const ustr &text, const Num &n, const char *what, bool skip_known = false) {
     Denot d = denote(text, n);
     if (!d.err.empty()) return d.err;
+    auto label = [&](const std::string &l) { if (strcmp(what, "c-direct") != 0) vh::label(l); };   // the second pass over the same text is not counted twice
     if (d.val.tie) label(std::string(what) + (d.val.tie == 1 ? ":value-exact-tie(even-below)" : ":value-exact-tie(even-above)"));
     if (d.su.tie) label(std::string(what) + (d.su.tie == 1 ? ":su-exact-tie(even-below)" : ":su-exact-tie(even-above)"));
     if (skip_known && (d.val.tie == 2 || d.su.tie == 2)) { count_excluded("F-TIE-ODD"); return ""; }
@@ -229,7 +230,6 @@ static std::string run_accept(const CaseFile &c) {
     if (text.find(u'\0') != ustr::npos) return "bad case file (embedded NUL)";
     Num n = parse_num(text);
     label(n.ok ? "a:valid" : "a:invalid");
-    label(std::string("a:prior-") + PRIOR[prior % 7]);
     CaseGuard guard;
     std::string msg;
     cif_value_tp *v = nullptr;
@@ -271,7 +271,7 @@ static std::string run_t2d(const CaseFile &c) {
     size_t sig = strip0(n.mant).size();
     { size_t tz = 0; const std::string &m = n.mant; while (tz < m.size() && m[m.size() - 1 - tz] == '0') tz++; if (sig > tz) sig -= tz; }
     label(sig >= 770 ? "b:sig>=770" : sig >= 100 ? "b:sig100-769" : sig >= 20 ? "b:sig20-99" : sig >= 17 ? "b:sig17-19" : "b:sig<17");
-    label(std::string("b:siglen-mod9=") + std::to_string(sig % 9));
+    if (sig % 9 == 0 || sig % 9 == 1 || sig % 9 == 8) label("b:siglen=0,1,8(mod 9)");
     long X = n.expo();
     label(std::labs(X) > 330 ? "b:|exp|>330" : std::labs(X) > 30 ? "b:|exp|31-330" : n.has_exp ? "b:|exp|<=30" : "b:no-exp");
     if (n.has_su) label("b:with-su");
@@ -347,6 +347,7 @@ static std::string run_d2t(const CaseFile &c) {
     rc = autoi ? cif_value_autoinit_numb(v, val, su, rule) : cif_value_init_numb(v, val, su, scale, mlz);
     after_init_call();
     ustr text;
+    if (getenv("VERIF_SHOW")) { UChar *t = nullptr; if (rc == CIF_OK) (void) cif_value_get_text(v, &t); printf("SHOW %s -> %s '%s'\n", call, cm::code_name(rc), u8(cm::take(t)).c_str()); }
     if (rc != CIF_OK) {
         // exact rendering needing more than 300 decimals, or a scale outside the documented range: refusal is tolerated
         size_t need = ev.F.find_last_not_of('0') == std::string::npos ? 0 : ev.F.find_last_not_of('0') + 1;
@@ -379,7 +380,7 @@ static std::string run_d2t(const CaseFile &c) {
         bool tie = false, inexact = false;
         std::string N = round_at(ev, scale, &tie, &inexact);
         if (tie) label("c:value-tie-at-scale");
-        if (inexact) label("c:value-rounded"); else label("c:value-exact-at-scale");
+        if (!inexact) label("c:value-exact-at-scale");
         if (N == "0" && val != 0) label("c:value-rounds-to-zero");
         if (strip0(n.mant) != N) {
             msg = std::string(call) + " produced '" + T + "': digits " + clip(strip0(n.mant), 60) + " but |val| rounded half-even at scale " + std::to_string(scale) + " is " + clip(N, 60) + (tie ? " (exact tie)" : "");
@@ -396,7 +397,7 @@ static std::string run_d2t(const CaseFile &c) {
             if (S == "0") { label(n.has_su ? "c:su-rounds-to-zero:printed-(0)" : "c:su-rounds-to-zero:omitted"); if (n.has_su && !all0(n.su)) { msg = std::string(call) + " produced '" + T + "' but the su rounds to zero at scale " + std::to_string(scale); goto done; } }
             else if (!n.has_su) { msg = std::string(call) + " produced '" + T + "' without su although the su rounds to " + S + " at scale " + std::to_string(scale); goto done; }
             else if (strip0(n.su) != S) { msg = std::string(call) + " produced '" + T + "': su digits " + n.su + " but su rounded half-even at scale " + std::to_string(scale) + " is " + S + (stie ? " (exact tie)" : ""); goto done; }
-            if (autoi && in_domain) { std::string rs = std::to_string(rule); label(S == rs ? "c:auto-su==rule" : S.size() == rs.size() ? "c:auto-su-same-length-as-rule" : "c:auto-su-shorter-than-rule"); }
+            if (autoi && in_domain) { std::string rs = std::to_string(rule); if (S == rs) label("c:auto-su==rule"); else if (S.size() < rs.size()) label("c:auto-su-shorter-than-rule"); }
         }
         // notation
         {
@@ -566,7 +567,7 @@ static BCase gen_b() {
         exact_ld(m, D, E);
         int kind = fam == 1 ? 0 : R(1, 4);
         perturb(D, E, kind);
-        b.tie = kind == 0; b.fam = std::string("midpoint-") + PERT[kind]; break; }
+        b.tie = kind == 0; b.fam = kind == 0 ? "midpoint-exact" : kind <= 2 ? "midpoint+-tiny" : "midpoint+-1-last-digit"; break; }
     case 3: {   // binade boundaries: 2^k, its predecessor, the midpoints on either side
         int k = P(50) ? R(-70, 70) : R(-1022, 1023);
         long double base = ldexpl(1.0L, k), m;
@@ -576,7 +577,7 @@ static BCase gen_b() {
         int kind = R(0, 4); perturb(D, E, kind);
         b.tie = which >= 2 && kind == 0;
         static const char *WN[] = {"2^k", "pred(2^k)", "mid-below-2^k", "mid-above-2^k"};
-        b.fam = std::string("binade-") + WN[which] + (kind ? "-perturbed" : ""); break; }
+        b.fam = std::string("binade-") + (which < 2 ? "2^k|pred(2^k)" : "midpoint") + (kind ? "-perturbed" : "-exact"); (void) WN; break; }
     case 4: {   // printf renderings of random doubles with 1..26 significant digits (typical data, 15-17-19 digit mantissas)
         double d = rnd_normal_double(); char buf[64];
         int prec = W({{2, R(0, 13)}, {5, R(14, 18)}, {2, R(19, 25)}});
